@@ -214,6 +214,9 @@ def _alias_of(pa, t):
 
 
 def check_release(chk, prog, eff, cache, ctors, off, R="C04.release", RX="C04.release-exhaustive"):
+    import typestate as _ts
+    PA_ = _ts.PredAlgebra(prog)
+    CS_ = _ts.CallSites(prog, eff, cache, {}, PA_)
     f = prog.fn("cbor_decref")
     where = "%s:%d" % (f.file, f.line)
     T = prog.enum("cbor_type")
@@ -259,12 +262,15 @@ def check_release(chk, prog, eff, cache, ctors, off, R="C04.release", RX="C04.re
                    detail="" if ok else "%d frees, %d child releases, %d stores to *item_ref" % (len(frees), len(decs), len(nulls)))
             continue
         nz += 1
-        types = None
-        for key, vals in st.inset.items():
-            if key[0] == "ld" and key[1] == ITEM and key[2] == off["type"]:
-                types = sorted(vals)
-        if types is None:
-            continue  # type outside the enumeration (default arm)
+        tys_, _iw, _fw, fl_ = CS_.summary(f, pa, ITEM)
+        if not tys_ or len(tys_) == 8:
+            # contradictory tests (infeasible) or no type test at all on this path (value outside the enumeration)
+            has_type_fact = any((isinstance(k_, tuple) and k_[0] == "ld" and k_[1] == ITEM and k_[2] == off["type"]) for k_ in list(st.inset) + list(st.eqc) + list(st.nec))
+            if not tys_ or has_type_fact:
+                continue
+        types = sorted(tys_)
+        if len(types) == 8:
+            continue
         seen_types |= set(types)
         tname = "/".join(Tn[t] for t in types)
         # item freed last, once; then only the NULL store
@@ -328,8 +334,7 @@ def check_release(chk, prog, eff, cache, ctors, off, R="C04.release", RX="C04.re
         looped = any(truth for t, truth in iters)
         t0 = types[0]
         if t0 in (T["CBOR_TYPE_BYTESTRING"], T["CBOR_TYPE_STRING"]):
-            indef = any(e.callee in ("cbor_bytestring_is_definite", "cbor_string_is_definite") and st.truth.get(e.res) is False
-                        for e in pa.events if e.kind == "call")
+            indef = fl_ == {1}
             if indef:
                 chunks_frees = [a for a in fa if a[0] == "ld" and a[1][0] == "ld" and a[1][1] == ITEM and a[1][2] == off["data"]]
                 chk.ob(R, "path %d (%s indefinite): the chunk table is freed once" % (k, tname), len(chunks_frees) == 1, where,
